@@ -85,6 +85,8 @@ RU_DIRECTED = [  # (pieces) with a '<' tail and '>' head
     lambda a, b: [a, "C(N)C", b],
     lambda a, b: ["CC(", b, ")(C", a, ")C(=O)OC"],
     lambda a, b: [a, "COC", b],
+    lambda a, b: [a, "CC(C)(", b, ")C(=O)OC"],          # descriptor-only branch right after a non-empty branch
+    lambda a, b: [a, "CC(C(F)(F)F)(", b, ")"],
 ]
 END_H = lambda d: [d, "[H]"]
 END_TOK = ["[H]", "O", "CO", "Br", "N", "C(=O)O", "F"]
@@ -177,6 +179,26 @@ def archetypes(tier, seed):
     out.append(hyperbranched(rng, "flory_schulz(0.1)"))
     out.append(hyperbranched(rng, "uniform(30, 120)", w=0.1))
     out.append(ids_two_families(rng, "schulz_zimm(140, 110)"))
+    out.append(homo(rng, dists[0], ru=8))
+    out.append(homo(rng, dists[1], ru=9, start_end=True))
+    out.append(homo(rng, dists[3], ru=9))
+    # explicit transition list that puts weight on an incompatible descriptor (generation must refuse that pick)
+    st = {"left": bd(">"), "repeat": [[bd("<"), "CN", bd(">", "", [9, 1, 0, 0])]], "end": [[bd("<"), "F"], [bd(">"), "Cl"]], "right": bd(""), "dist": dists[1]}
+    out.append({"elements": [["OC"], st], "archetype": "list-weight-on-incompatible"})
+    # left terminal carrying a transition list whose sum is not 1
+    st = {"left": bd(">", "", [3, 0, 1, 0]), "repeat": [[bd("<"), "CC", bd(">")], [bd("<"), "C(C)C", bd(">")]], "end": [], "right": bd("<"), "dist": dists[1]}
+    out.append({"elements": [["N"], st, ["O"]], "archetype": "left-terminal-list"})
+    st = {"left": bd(">", "", 2), "repeat": [[bd("<"), "CC", bd(">", "", [0, 1, 3, 0])], [bd("<"), "C(C)C", bd(">")]], "end": [], "right": bd("<"), "dist": dists[0]}
+    out.append({"elements": [["OC"], st, ["F"]], "archetype": "repeat-list-sum-not-1"})
+    # weights that differ by less than any tolerance one might be tempted to use
+    st = {"left": bd(">"), "repeat": [[bd("<", "", 0), "C(F)C", bd(">")], [bd("<", "", 1e-9), "CC", bd(">")]], "end": [[bd("<"), "[H]"]], "right": bd(""), "dist": "uniform(40, 100)"}
+    out.append({"elements": [["N"], st], "archetype": "near-equal-weights"})
+    st = {"left": bd(">"), "repeat": [[bd("<", "", 1.0), "C(F)C", bd(">")], [bd("<", "", 1.0 + 1e-7), "CC", bd(">")]], "end": [[bd("<"), "[H]"]], "right": bd(""), "dist": "uniform(40, 100)"}
+    out.append({"elements": [["N"], st], "archetype": "near-equal-weights"})
+    # two stochastic objects directly next to each other, the first one leaving a listed descriptor open
+    s1 = {"left": bd("<"), "repeat": [[bd("<", "", [0, 1]), "CC", bd(">")]], "end": [], "right": bd(">"), "dist": dists[0]}
+    s2 = {"left": bd("<"), "repeat": [[bd("<"), "OC", bd(">", "", 3)], [bd("<"), "SC", bd(">", "", 1)]], "end": [], "right": bd(">"), "dist": dists[1]}
+    out.append({"elements": [["C"], s1, s2, ["F"]], "archetype": "adjacent-objects-listed-handover"})
     if tier == "thorough":
         for d1, d2 in itertools.product(dists[:4], dists[2:]):
             out.append(block(rng, d1, d2, connector=rng.choice([None, "CC", "COC"])))
